@@ -584,9 +584,9 @@ theorem loadCache_cacheRef {cd : Codecs} {cfg : Cfg} {base : Store} {baseH : Nat
       unfold getBlockByHeight; rw [hidx]; exact hlast
     obtain ⟨hlh, hlc, hlb⟩ := getBlockByHeight_ok hbase hR (Nat.le_refl _) hgl
     -- the blocks below
-    generalize hlow : (if last.hdr.height > 0 then
-        ((List.range (last.hdr.height - (last.hdr.height - cfg.maxCache))).map
-          fun i => (last.hdr.height - cfg.maxCache) + i).mapM (getBlockByHeight cd db)
+    generalize hlow : (if last.hdr.height > cfg.genesisHeight then
+        ((List.range (last.hdr.height - max cfg.genesisHeight (last.hdr.height - cfg.maxCache))).map
+          fun i => max cfg.genesisHeight (last.hdr.height - cfg.maxCache) + i).mapM (getBlockByHeight cd db)
       else some []) = lower at hl
     cases lower with
     | none => cases hl
@@ -602,7 +602,8 @@ theorem loadCache_cacheRef {cd : Codecs} {cfg : Cfg} {base : Store} {baseH : Nat
             obtain ⟨i, hi, rfl⟩ := List.mem_map.mp hh
             have hi' := List.mem_range.mp hi
             exact (getBlockByHeight_ok hbase hR (by omega) ht).1)
-          refine ⟨last.hdr.height - cfg.maxCache, last.hdr.height - (last.hdr.height - cfg.maxCache),
+          refine ⟨max cfg.genesisHeight (last.hdr.height - cfg.maxCache),
+            last.hdr.height - max cfg.genesisHeight (last.hdr.height - cfg.maxCache),
             by omega, h1, ?_⟩
           intro t ht
           obtain ⟨h, hh, hg⟩ := h2 t ht
